@@ -223,10 +223,22 @@ def gen_scope(g, chain, depth, has_index, in_grange=False):
             elif rep == "grange":
                 members.append([cname, ["prefixed", ["varint"], ["grange", cs], False]])
             else:
-                # RepeatUntil over scopes whose marker equals a sentinel in the last element only: use the list length
+                # RepeatUntil over struct scopes: the predicate looks at the element's marker (obj_.m == 9), true for the last one only
+                mk = [nm for nm, sp in (cs[1] if cs[0] == "struct" else []) if nm and nm.startswith("m") and sp == BYTE]
+                if mk and isinstance(cv, dict) and cv.get(mk[0]) is not None:
+                    members.append([cname, ["runtil", ["bin", "==", ["obj", [mk[0]]], ["const", 9]], cs]])
+                    vals = [dict(cv) for _ in range(n)]
+                    vals[-1][mk[0]] = 9
+                    values[cname] = vals
+                    add_probes(draw(st.integers(0, 2)))
+                    return _finish(kind, members, values, mname, mval, mform, here)
                 members.append([cname, ["array", n, cs]])
             values[cname] = [cv for _ in range(n)]
         add_probes(draw(st.integers(0, 2)))
+    return _finish(kind, members, values, mname, mval, mform, here)
+
+
+def _finish(kind, members, values, mname, mval, mform, here):
     spec_members = members
     if kind == "struct":
         return ["struct", spec_members], values, here
